@@ -12,7 +12,7 @@ Extraction "model.ml"
                 spec_positive spec_text
   (* Endpoint *) try_parse_pasv_reply try_parse_epsv_reply make_port_command make_eprt_command dotted
   (* Ascii *)   aread drain istart owrites sink_content to_crlf from_crlf
-  (* Framing *) recv_n fixed_cfg pinned_cfg find_eol strip_eol render expected wf_reply
+  (* Framing *) recv_n run_ops fixed_cfg pinned_cfg find_eol strip_eol render expected wf_reply
   (* Cmdline *) parse_command verb_name render_args lower all_commands
   (* Client *)  steps step init_world held data_recv data_send
   (* App *)     run_main app_init
